@@ -118,7 +118,7 @@ func init() {
 		"fd-number-reused", "canary-grabbed", "close-sent-RST")
 	props["C05"] = simProp("same runs as C03/C04 with the executing task recorded for every callback, runnable and kernel call: one task per connection for life, no overlapping callbacks on one loop (nested OnClose from the handler's own call is legal), every read/write/epoll_ctl/close on a connection's descriptor issued by its loop's task, no panic from any documented concurrency-safe call made at arbitrary moments (SafeContext/SetSafeContext/Fd from application goroutines and from the loop at once); a third of the workers run the race flavour (variants +race): the same deterministic runs in a binary carrying the Go race detector, which is shown only the synchronisation the framework performs itself (the scheduler's hand-offs and the harness's own state are hidden from it through a build overlay of two runtime files, application-side hand-overs of Engine and Conn are the only edges the harness adds), so that two conflicting accesses made by gnet code on two tasks are reported whenever gnet's own atomics, locks, channels, goroutine creation and pool hand-overs leave them unordered, whichever order the schedule ran them in; a report is a violation (key data-race/<function>+<function>) with the plan as replay file, shrunk by re-executing candidates in fresh processes;"+sig,
 		"async-executed", "safe-context-calls")
-	props["C06"] = simProp("whole-engine runs with the shutdown source (Engine.Stop, gnet.Stop, Shutdown action from OnBoot/OnOpen/OnTraffic/OnClose/OnTick) and moment (any scheduler step: mid-accept, mid-read, queued async tasks, concurrent second Stop) drawn from the seed; Run returns nil within the drain bound (hang = quiescent without return), every opened connection got OnClose before, OnShutdown exactly once, no callback afterwards during a post-mortem phase in which timers keep firing; a task that repeats one EAGAIN-answered call 500 times without returning to the poller is a busy retry: the shutdown is requested and must still complete (C06/spin otherwise); in one plan in thirty 3-5 application goroutines keep issuing AsyncWrite on one connection until Run returns, and Run must return within 25000 scheduler decisions of the stop request (C06/hang-under-load; the +small flavour makes the queue thresholds reachable); non-trivial = connections were open;"+sig,
+	props["C06"] = simProp("whole-engine runs with the shutdown source (Engine.Stop, gnet.Stop, Shutdown action from OnBoot/OnOpen/OnTraffic/OnClose/OnTick) and moment (any scheduler step: mid-accept, mid-read, queued async tasks, concurrent second Stop) drawn from the seed; Run returns nil within the drain bound (hang = quiescent without return), every opened connection got OnClose before, OnShutdown exactly once, no callback afterwards during a post-mortem phase in which timers keep firing; a task that repeats one EAGAIN-answered call 500 times without returning to the poller is a busy retry: the shutdown is requested and must still complete (C06/spin otherwise); in one plan in thirty 3-5 application goroutines keep issuing AsyncWrite on one connection until Run returns, and Run must return within 25000 scheduler decisions of the stop request (C06/hang-under-load; the +small flavour makes the queue thresholds reachable); in one plan in fifteen an older engine runs under the same address (SO_REUSEPORT), is stopped through its own handle once the engine under test has registered, and the latter is then stopped through the package-level Stop; OnTick is called again during the workload (simulated time passes at seeded steps) and may ask for the shutdown at its n-th call; non-trivial = connections were open;"+sig,
 		"accepted")
 	props["C18"] = simProp("per seeded scenario (3-4 connections with echo-like checked traffic in LT or ET, reactor or reuseport, tcp or unix, plus a late probe connection): one fault-free run recording the syscall trace by (site, descriptor class, call index), then one run per single fault (read/write/writev/epoll_ctl add,mod,del/close on stream descriptors, epoll_wait, accept4; call index 1..6 (12 thorough); errno from the realistic set of the site; stateful resets mark the socket too) on the same seed, i.e. the same schedule prefix; every fourth seed is a random plan with 1-2 random faults instead; oracle: no panic, C01/C02/C04/C05/C06/C07 monitors hold (victims exempt from completeness only), victim closed with an error and its descriptor released, probe served, retryable conditions (EAGAIN LT-only, EINTR, ECONNABORTED) leave everything as fault-free; evaluations counts every executed run; non-trivial/distinct = scenario enumerations (hash of all sub-run logs) and random-fault runs in which a fault fired with at least two connections open",
 		"faults-enumerated", "scenarios-enumerated-completely")
